@@ -239,6 +239,41 @@ class RealWorld(env.BaseWorld):
     def set_busy_hook(self, cache, fn):
         self.busy_hook = fn
 
+    def damage_file(self, cache, rel, deleted, new_size):
+        p = os.path.join(cache._directory, rel)
+        if not os.path.exists(p):
+            return
+        if sx.simp(deleted) if sx.isz(deleted) else deleted:
+            os.remove(p)
+        else:
+            with open(p, 'r+b') as f:
+                f.truncate(conv(new_size) if isinstance(new_size, (I, R)) else int(sx.simp(new_size)))
+
+    def add_extra(self, cache, rel, exists, size=0, is_dir=False):
+        p = os.path.join(cache._directory, rel)
+        if is_dir:
+            os.makedirs(p, exist_ok=True)
+            return
+        ex = sx.simp(exists) if sx.isz(exists) else exists
+        if ex:
+            os.makedirs(os.path.dirname(p), exist_ok=True)
+            with open(p, 'wb') as f:
+                f.truncate(int(size))
+
+    def bump_counter(self, cache, name, delta):
+        con = self.raw_con(cache)
+        try:
+            d = conv(delta) if isinstance(delta, (I, R)) else int(sx.simp(delta))
+            con.execute('UPDATE Settings SET value = value + ? WHERE key = ?', (d, name))
+        finally:
+            con.close()
+
+    def dir_listing(self, cache):
+        out = {}
+        for dp, ds, fs in os.walk(cache._directory):
+            out[dp] = ([os.path.join(dp, d) for d in ds], [(os.path.join(dp, f), True) for f in fs])
+        return out
+
     def recover(self):
         self.frozen = False
         self.crash_at = None
